@@ -372,7 +372,11 @@ func runRegChild(c regCase) (regResult, error) {
 			// the child died of a panic that nothing in it could recover (raised on a goroutine
 			// the library started itself): a violation for this sequence; the other sequences go on
 			res.Evals = 1
-			res.Fails = []regFail{{regProbe{Judged: len(c.Seq) - 1, After: len(c.Seq)}, "panic-escaped", "the process of this sequence died: " + crash}}
+			obs := "the process of this sequence died: " + crash
+			if at := crashFrame(stderr.String()); at != "" {
+				obs += " at " + at
+			}
+			res.Fails = []regFail{{regProbe{Judged: -1}, escapedClause, obs}}
 			return res, nil
 		}
 		return res, fmt.Errorf("child for %s: %v: %s", c.seqString(), err, stderr.String())
@@ -456,6 +460,10 @@ func allRegCases(codeList, tripleCodes []uint32, tripleSpecs []regSpec) []regCas
 }
 
 func (c regCase) group(p regProbe, clause string) string {
+	if clause == escapedClause {
+		// the process of the sequence died: no probe to name; by the last registration made
+		return fmt.Sprintf("C14|registrations|last=%s|%s", c.Seq[len(c.Seq)-1], clause)
+	}
 	kind := "unary"
 	if p.Stream {
 		kind = "stream"
@@ -464,5 +472,8 @@ func (c regCase) group(p regProbe, clause string) string {
 }
 
 func (c regCase) extras(p regProbe) string {
+	if p.After == 0 && p.Judged < 0 {
+		return "|seq=" + c.seqString()
+	}
 	return fmt.Sprintf("|seq=%s|judged=#%d|after=%d|code=%d|cancelled=%v", c.seqString(), p.Judged, p.After, p.Code, p.Cancelled)
 }
